@@ -133,6 +133,7 @@ type bdesc struct {
 	ok   bool
 	m    float64 // multiplier of the exponential base (0 if none)
 	lim  []int
+	via  string // how the backoff was obtained: ctor, builder-base, builder-spec (x number of Build calls)
 }
 
 func jrate(r *gen.Rand) float64 {
@@ -153,7 +154,10 @@ func jrate(r *gen.Rand) float64 {
 func genBackoff(r *gen.Rand) bdesc {
 	var d bdesc
 	d.ok = true
+	d.via = "ctor"
 	var err error
+	spec := ""
+	bld := retry.NewBackoffBuilder()
 	switch r.Intn(3) {
 	case 0:
 		v := r.NonNeg()
@@ -161,6 +165,7 @@ func genBackoff(r *gen.Rand) bdesc {
 			v = r.Int64()
 		}
 		d.toks = fmt.Sprintf("F %d", v)
+		spec = fmt.Sprintf("fixed=%d", v)
 		d.b, err = retry.NewFixedBackoff(v)
 	case 1:
 		i, mx := r.NonNeg(), r.NonNeg()
@@ -173,6 +178,7 @@ func genBackoff(r *gen.Rand) bdesc {
 		}
 		d.m = m
 		d.toks = fmt.Sprintf("E %d %d %s", i, mx, fb(m))
+		spec = fmt.Sprintf("exponential=%d:%d:%s", i, mx, strconv.FormatFloat(m, 'g', -1, 64))
 		d.b, err = retry.NewExponentialBackoff(i, mx, m)
 	default:
 		mn, mx := r.NonNeg(), r.NonNeg()
@@ -193,12 +199,14 @@ func genBackoff(r *gen.Rand) bdesc {
 			mn, mx = pr[0], pr[1]
 		}
 		d.toks = fmt.Sprintf("R %d %d", mn, mx)
+		spec = fmt.Sprintf("random=%d:%d", mn, mx)
 		d.b, err = retry.NewRandomBackoff(mn, mx)
 	}
 	if err != nil {
 		d.ok = false
 		return d
 	}
+	base := d.b
 	for l := r.Intn(4); l > 0; l-- {
 		if r.Bool() {
 			lim := 1 + r.Intn(6)
@@ -213,6 +221,7 @@ func genBackoff(r *gen.Rand) bdesc {
 			}
 			d.b = nb
 			d.lim = append(d.lim, lim)
+			bld.WithLimit(lim)
 		} else {
 			lo, hi := jrate(r), jrate(r)
 			if r.Intn(4) > 0 && lo > hi {
@@ -222,6 +231,28 @@ func genBackoff(r *gen.Rand) bdesc {
 			nb, e := retry.NewJitterAddingBackoff(d.b, lo, hi)
 			if e != nil {
 				d.ok = false
+				return d
+			}
+			d.b = nb
+			bld.WithJitterBound(lo, hi)
+		}
+	}
+	// the documented way to compose policies is the builder: the same composition, built once or several times
+	// from one builder (every Build must give the policy described by d.toks), replaces the direct construction
+	if k := r.Intn(5); k > 0 {
+		if k%2 == 0 {
+			bld.BaseBackoff(base)
+			d.via = "builder-base"
+		} else {
+			bld.BaseBackoffSpec(spec)
+			d.via = "builder-spec"
+		}
+		n := 1 + r.Intn(3)
+		d.via += fmt.Sprintf("x%d", n)
+		for ; n > 0; n-- {
+			nb, e := bld.Build()
+			if e != nil || nb == nil {
+				d.b = nil
 				return d
 			}
 			d.b = nb
@@ -275,6 +306,13 @@ func genDelay(r *gen.Rand, n int) {
 					}
 					return 0
 				})
+				if d.b == nil {
+					fastrand.SetSource(nil)
+					stats["delay:builder-refused"]++
+					emit("delay", sb.String(), "builder-refused("+d.via+")")
+					break
+				}
+				stats["delay:via-"+strings.SplitN(d.via, "x", 2)[0]]++
 				v := d.b.NextDelayMillis(att)
 				fastrand.SetSource(nil)
 				res = fmt.Sprint(v)
